@@ -5,7 +5,7 @@ import math
 
 from hypothesis import strategies as st
 
-from vf import gen
+from vf import dense, gen
 from vf.core import Clause, Property, Violation
 from vf.osk import call_kwargs, eff_tau, mk_model, mk_teams
 
@@ -129,6 +129,9 @@ PROPERTY = Property(
         Clause(name="atheris-totality", kind="custom", custom=fuzz_custom, check=check_c08, quick=8000, thorough=640000, shards_quick=2, shards_thorough=16,
                rule="coverage-guided libFuzzer campaign (atheris, openskill instrumented): bytes decoded into a structured valid game of the same domain, same "
                     "oracle inside the target; shards alternate between the empty corpus and seed inputs shaped like the repository's golden games"),
+        Clause(name="dense-two-team-sweep", strategy=dense.two_team_sweep(), check=check_c08, quick=8000, thorough=300000,
+               rule="two-team games whose standardised gap is drawn uniformly from [-10, 10], log-uniformly near 0, or (1 in 10) within +-0.15 of the points "
+                    "where erfc / exp / the epsilon guards change regime (8.126, 37.52, 38.475, 38.58); all three outcomes; same oracle"),
         Clause(name="totality", strategy=cases(), check=check_c08, quick=8000, thorough=200000,
                rule="predict_win, predict_draw, predict_rank and rate on one generated game of the widest stated domain (2..8 teams, 1..16 players, corner-heavy "
                     "values, sigma = 0 with tau >= 1e-6 beta, kappa down to 1e-12, scale 1e-3..1e3); non-trivial = team of >= 8 players, or sigma = 0, or the "
